@@ -7,6 +7,14 @@ HERE = os.path.dirname(os.path.dirname(os.path.abspath(__file__)))
 
 # property id -> (technique, level text, level note, design ref) ; only built checks are listed
 CHECKS = {
+    'C11': ('lock-step product exploration of the sync / async twins over the exhaustive generators of the other checks (differential '
+            'oracle): every input / transport script / choice sequence is executed on both halves and the observations compared',
+            'Dispatcher vs AsyncDispatcher (coroutines) vs AsyncDispatcher (plain functions) on the C01 value-shape / lexical / token '
+            'corpora, the C02 documents, the C03 failure table and the C12 middleware x handler x request configurations; AbstractClient vs '
+            'AbstractAsyncClient on every leaf of the C09 retry and C19 tracer choice trees (same choices replayed), every C08 response '
+            'document and the C07 notations: identical documents, codes, executions, events, results, exceptions and sleep sequences.',
+            'trusted: observation digests (mc/harness/clientrun.summarize, props/common_server.obs_key); KeyboardInterrupt and CancelledError are identified',
+            'DESIGN.md section 5, C11'),
     'C20': ('explicit-state level-synchronous breadth-first search over operation histories on the real PjRpcMocker (patching real '
             'sync and async clients) with canonical state hashing, lock-step with a dict-of-lists reference model plus a one-rotation '
             'look-ahead oracle in every state',
